@@ -73,7 +73,7 @@ func init() {
 	// ------------------------------------------------------------------ C01
 	register(&Spec{Prop: "C01",
 		Gen: func(t *rapid.T, th bool) *Case {
-			pf := &Profile{Kinds: allKinds, QKinds: allQKinds, MaxQueues: 2, Concs: []int{1, 2, 3, 4}, Expiry: []int{0, 0, 0, 60, 1000}, Ratio: []int{0, 0, 20, 50, 100},
+			pf := &Profile{WQueueProb: 10, Kinds: allKinds, QKinds: allQKinds, MaxQueues: 2, Concs: []int{1, 2, 3, 4}, Expiry: []int{0, 0, 0, 60, 1000}, Ratio: []int{0, 0, 20, 50, 100},
 				IDGenProb: 30, ErrsReader: 30, MinClients: 1, MaxClients: 3, MaxOps: scale(th, 7, 14),
 				Ops:     map[string]int{"add": 30, "addall": 8, "addmany": 8, "wait": 8, "close": 8, "purge": 3, "sleep": 6, "qclose": 1, "release": 3, "yield": 3},
 				Ctrl:    map[string]int{"pause": 3, "pausewait": 3, "resume": 4, "stop": 2, "restart": 3, "tune": 5, "sleep": 3},
@@ -93,7 +93,8 @@ func init() {
 		Gen: func(t *rapid.T, th bool) *Case {
 			pf := &Profile{Kinds: allKinds, QKinds: memQKinds, MaxQueues: 2, Concs: []int{1, 2, 3, 4, 2, 3}, Expiry: []int{0, 0, 0, 1000},
 				MinClients: 1, MaxClients: 2, MaxOps: scale(th, 8, 14),
-				Ops:     map[string]int{"add": 30, "addmany": 12, "settle": 6, "release": 8, "sleep": 3, "yield": 3},
+				// Pause/Resume also come from ordinary clients, concurrently with the controller's calls
+				Ops:     map[string]int{"add": 30, "addmany": 12, "settle": 6, "release": 8, "sleep": 3, "yield": 3, "resume": 4, "pause": 1},
 				Ctrl:    map[string]int{"pause": 2, "pausewait": 2, "resume": 4, "restart": 4, "tune": 10, "bind": 3, "settle": 6, "stop": 1},
 				MaxCtrl: scale(th, 5, 10), GatedProb: 80, MaxBatch: 5}
 			return genProgram(t, "C02", pf, th)
@@ -117,7 +118,7 @@ func init() {
 	// ------------------------------------------------------------------ C03
 	register(&Spec{Prop: "C03",
 		Gen: func(t *rapid.T, th bool) *Case {
-			pf := &Profile{Kinds: allKinds, QKinds: allQKinds, MaxQueues: 2, Concs: []int{1, 2, 3, 4}, Expiry: []int{0, 0, 60, 1000}, Ratio: []int{0, 0, 20, 100},
+			pf := &Profile{WQueueProb: 10, Kinds: allKinds, QKinds: allQKinds, MaxQueues: 2, Concs: []int{1, 2, 3, 4}, Expiry: []int{0, 0, 60, 1000}, Ratio: []int{0, 0, 20, 100},
 				ErrsReader: 40, MinClients: 1, MaxClients: 3, MaxOps: scale(th, 7, 14),
 				Ops:     map[string]int{"add": 30, "addall": 6, "addmany": 8, "wait": 6, "close": 8, "purge": 2, "sleep": 8, "release": 4, "settle": 3, "yield": 3},
 				Ctrl:    map[string]int{"pause": 3, "resume": 4, "tune": 8, "sleep": 4, "settle": 2},
@@ -172,7 +173,7 @@ func init() {
 	// ------------------------------------------------------------------ C05
 	register(&Spec{Prop: "C05",
 		Gen: func(t *rapid.T, th bool) *Case {
-			pf := &Profile{Kinds: allKinds, QKinds: memQKinds, MaxQueues: 1, Concs: []int{1, 2, 3}, MinClients: 2, MaxClients: 4, MaxOps: scale(th, 7, 12),
+			pf := &Profile{WQueueProb: 25, Kinds: allKinds, QKinds: memQKinds, MaxQueues: 1, Concs: []int{1, 2, 3}, MinClients: 2, MaxClients: 4, MaxOps: scale(th, 7, 12),
 				Ops:     map[string]int{"add": 25, "addall": 8, "wait": 15, "result": 15, "gwait": 8, "drain": 2, "close": 5, "purge": 2, "release": 5, "yield": 3},
 				Ctrl:    map[string]int{"pause": 2, "resume": 3},
 				MaxCtrl: 3, GatedProb: 40, Outs: []int{OutVal, OutErr, OutPanicStr}, MaxBatch: 4}
@@ -203,7 +204,7 @@ func init() {
 	// ------------------------------------------------------------------ C06
 	register(&Spec{Prop: "C06",
 		Gen: func(t *rapid.T, th bool) *Case {
-			pf := &Profile{Kinds: allKinds, QKinds: memQKinds, MaxQueues: 2, Concs: []int{1, 2, 3}, MinClients: 1, MaxClients: 3, MaxOps: scale(th, 7, 12),
+			pf := &Profile{WQueueProb: 10, Kinds: allKinds, QKinds: memQKinds, MaxQueues: 2, Concs: []int{1, 2, 3}, MinClients: 1, MaxClients: 3, MaxOps: scale(th, 7, 12),
 				Ops:     map[string]int{"add": 30, "addmany": 6, "wuf": 16, "close": 8, "purge": 3, "release": 4, "yield": 3},
 				Ctrl:    map[string]int{"pausewait": 4, "resume": 4, "stop": 2, "waitstop": 2, "restart": 2, "wuf": 4},
 				MaxCtrl: scale(th, 4, 8), GatedProb: 25, MaxBatch: 4}
@@ -228,14 +229,14 @@ func init() {
 	// ------------------------------------------------------------------ C07
 	register(&Spec{Prop: "C07",
 		Gen: func(t *rapid.T, th bool) *Case {
-			pf := &Profile{Kinds: allKinds, QKinds: allQKinds, MaxQueues: 2, Concs: []int{1, 2, 4, 8}, IDGenProb: 40, ErrsReader: 50, MinClients: 1, MaxClients: 3, MaxOps: scale(th, 8, 14),
+			pf := &Profile{WQueueProb: 15, Kinds: allKinds, QKinds: allQKinds, MaxQueues: 2, Concs: []int{1, 2, 4, 8}, IDGenProb: 40, ErrsReader: 50, MinClients: 1, MaxClients: 3, MaxOps: scale(th, 8, 14),
 				Ops:     map[string]int{"add": 30, "addall": 10, "result": 25, "wait": 5, "gconsume": 10, "gwait": 4, "release": 4, "yield": 3},
-				MaxCtrl: 0, GatedProb: 25, Outs: []int{OutVal, OutVal, OutErr, OutPanicStr, OutPanicErr, OutPanicNil}, MaxBatch: 5}
+				MaxCtrl: 0, GatedProb: 25, Outs: []int{OutVal, OutVal, OutErr, OutPanicStr, OutPanicErr, OutPanicNil, OutPanicStruct}, MaxBatch: 5}
 			// one case in six is a "failure storm": every job fails, several at once, nobody reads Errs()
 			storm := rapid.IntRange(0, 5).Draw(t, "storm") == 0
 			if storm {
 				pf.Concs = []int{2, 4, 8}
-				pf.Outs = []int{OutErr, OutPanicStr, OutErr, OutPanicErr}
+				pf.Outs = []int{OutErr, OutPanicStr, OutErr, OutPanicErr, OutPanicStruct}
 				pf.ErrsReader = 0
 				pf.GatedProb = 60
 			}
@@ -366,7 +367,7 @@ func init() {
 	// ------------------------------------------------------------------ C10
 	register(&Spec{Prop: "C10",
 		Gen: func(t *rapid.T, th bool) *Case {
-			pf := &Profile{Kinds: allKinds, QKinds: memQKinds, MaxQueues: 2, Concs: []int{1, 2, 3}, MinClients: 1, MaxClients: 4, MaxOps: scale(th, 7, 12),
+			pf := &Profile{WQueueProb: 15, Kinds: allKinds, QKinds: memQKinds, MaxQueues: 2, Concs: []int{1, 2, 3}, MinClients: 1, MaxClients: 4, MaxOps: scale(th, 7, 12),
 				Ops:     map[string]int{"add": 30, "addall": 6, "close": 25, "purge": 6, "qclose": 3, "wait": 8, "status": 3, "release": 4, "yield": 3, "gwait": 2},
 				Ctrl:    map[string]int{"pause": 3, "resume": 4, "pausewait": 1},
 				MaxCtrl: 3, GatedProb: 30, Outs: []int{OutVal, OutVal, OutErr}, MaxBatch: 4}
@@ -404,7 +405,7 @@ func init() {
 	// ------------------------------------------------------------------ C16
 	register(&Spec{Prop: "C16",
 		Gen: func(t *rapid.T, th bool) *Case {
-			pf := &Profile{Kinds: allKinds, QKinds: memQKinds, MaxQueues: 1, Concs: []int{1, 2, 3}, MinClients: 2, MaxClients: 4, MaxOps: scale(th, 8, 14),
+			pf := &Profile{WQueueProb: 15, Kinds: allKinds, QKinds: memQKinds, MaxQueues: 1, Concs: []int{1, 2, 3}, MinClients: 2, MaxClients: 4, MaxOps: scale(th, 8, 14),
 				Ops:     map[string]int{"add": 30, "addall": 4, "status": 30, "wait": 12, "close": 4, "release": 3, "yield": 4, "snap": 4},
 				MaxCtrl: 0, GatedProb: 20, Outs: []int{OutVal, OutErr, OutPanicStr}, MaxBatch: 3}
 			return genProgram(t, "C16", pf, th)
